@@ -11,7 +11,7 @@ from common import lean_driver
 
 LEVEL = 'proof'
 
-TOKS = ['-m', '--', '-l', '-v', '-o', 'x', 'mod', '-p', '--view', '-b', 'a=b', '-z', '-h', '--help']
+TOKS = ['-m', '--', '-l', '-v', '-o', 'x', 'mod', '-p', '--view', '-b', 'a=b', '-z', '-h', '--help', '--line-profile', '--pro', '--out']
 # (prefix, line_by_line, view, outfile or None)
 PREFIXES = [
     ([], False, False, None), (['-l'], True, False, None), (['-b'], False, False, None), (['-l', '-v'], True, True, None),
@@ -75,10 +75,15 @@ def run(ctx):
         exp_file = outf or (target + ('.lprof' if lbl else '.prof'))
         exp_kind = 'lprof' if lbl else 'pstats'
         ok = (r['status'] == 'ok' and r['argv'] is not None and r['argv'][1:] == rest and r['files'] == [exp_file]
-              and r['kinds'] == [exp_kind] and r['viewed'] == view)
+              and r['kinds'] == [exp_kind] and r['viewed'] == view and r.get('explicit_after', [None, False]) == [None, False])
         if not ok:
+            # recorded finding F-C15a: a program argument that is an ambiguous prefix of two of kernprof's long options (`--pro`, `--out`) makes
+            # argparse abort before anything runs (plain script shape only: after `-m mod` and after `--` nothing is scanned)
+            cls = None
+            if r['status'] == 'exit2' and r.get('ambiguous') and r['argv'] is None and shape == 'plain' and any(t in ('--pro', '--out') for t in rest):
+                cls = 'F-C15a'
             ctx.fail('program arguments not delivered verbatim / kernprof behaviour changed by them',
-                     {'finding_class': None, 'shape': shape, 'args': args, 'expected_argv_tail': rest,
+                     {'finding_class': cls, 'shape': shape, 'args': args, 'expected_argv_tail': rest,
                       'expected': {'file': exp_file, 'kind': exp_kind, 'viewed': view}, 'real': r})
         if model is not None:
             exp_model = 'ok %s %s %s %d %d | %s' % ('module' if shape == 'module' else 'script', target, exp_file, lbl, view, ' '.join(rest))
@@ -86,9 +91,11 @@ def run(ctx):
             if r['status'] == 'ok' and r['argv'] is not None and len(r['files']) == 1:
                 real_as_model = 'ok %s %s %s %d %d | %s' % ('module' if shape == 'module' else 'script', r['argv'][0] if shape != 'module' else target,
                                                           r['files'][0], r['kinds'][0] == 'lprof', r['viewed'], ' '.join(r['argv'][1:]))
-            if model[i].strip() != (real_as_model or '').strip():
+            if r['status'] == 'exit2' and r.get('ambiguous') and r['argv'] is None and model[i].startswith('err ambiguous'):
+                pass            # model and code agree on the recorded finding F-C15a (argparse's ambiguity check)
+            elif model[i].strip() != (real_as_model or '').strip():
                 kdiff += 1
-                if ok:
+                if ok or model[i].startswith('err ambiguous'):
                     ctx.broken.append(('K15 correspondence', 'args %s model %r real %r' % (args, model[i], real_as_model)))
         if any(t.startswith('-') for t in rest):
             nontrivial.add(json.dumps(args))
